@@ -421,6 +421,44 @@ func mustPassFrom(f *ssa.Function, start *ssa.BasicBlock, startIdx int, targets 
 	corrIdx := corrConds(f)
 	ng := len(guards)
 	init := make([]byte, ng+len(corrIdx))
+	if start != f.Blocks[0] && len(corrIdx) > 0 {
+		// a search that starts inside a branch already knows the truth value of
+		// the correlated conditions whose edge dominates the start block (unless
+		// the condition may have been re-evaluated on the way from that edge)
+		resets := corrResets(f)
+		for _, b := range f.Blocks {
+			iff, ok := b.Instrs[len(b.Instrs)-1].(*ssa.If)
+			if !ok {
+				continue
+			}
+			cv, neg := stripNot(iff.Cond)
+			ci, ok := corrIdx[cv]
+			if !ok {
+				continue
+			}
+			for si := range b.Succs {
+				if !edgeDominates(Edge{b, si}, start) {
+					continue
+				}
+				stale := false
+				for mid := range blocksBetween(b.Succs[si], start) {
+					for _, r := range resets[mid] {
+						if r == ci {
+							stale = true
+						}
+					}
+				}
+				if stale {
+					continue
+				}
+				val := byte(1)
+				if (si == 1) != neg {
+					val = 2
+				}
+				init[ng+ci] = val
+			}
+		}
+	}
 	seen := map[pathState]bool{}
 	queue := []*node{{st: pathState{start, string(init)}}}
 	if startIdx == 0 {
